@@ -26,7 +26,7 @@ ASSUMPTIONS = [
     'fixed: getcallargs takes the function positionally, as inspect.getcallargs does); replay replays/C18/F20-*.json',
     'defaults are the strings Da..Dd, or None/0/\'\'/False, or (same_code) drawn from None,0,1,\'\',D,E,False,[],[1]',
     'argument values: ints (no bools), strings, None, lists of ints, dicts str->int - a universe on which the cache key normalisation '
-    'is injective (no list/tuple twins, no 1/1.0/True, no sets); the empty dict is kept out of cache histories because cache keys '
+    'is injective (no list/tuple twins, no 1/1.0/True, no sets; ints include -1, -2 and n + 2**61-1, whose python hashes collide but which are distinct values); the empty dict is kept out of cache histories because cache keys '
     '{} and [] alike (same normalisation as the documented list/tuple twin)',
     'loop(list,tuple,dict) is judged only on calls whose first argument (first positional, else the first declared parameter by keyword) '
     'is not a list/tuple/dict ("loops on non-container input"); a first parameter left to a list default counts as a container, '
@@ -268,6 +268,41 @@ def bvals(args, kwargs):
 
 def is_container_spec(v):
     return isinstance(v, list)
+
+
+M61 = 2 ** 61 - 1     # CPython: hash(n) == hash(n + k * M61) for ints, and hash(-1) == hash(-2)
+
+
+def hash_twin(v):
+    """a DIFFERENT value spec whose python hash (after list -> tuple normalisation) equals that of v, or None if v holds no int"""
+    if isinstance(v, bool):
+        return None
+    if isinstance(v, int):
+        return -2 if v == -1 else -1 if v == -2 else v + M61 if v >= 0 else v - M61
+    if isinstance(v, list) and v[0] == 'list':
+        for i, x in enumerate(v[1]):
+            t = hash_twin(x)
+            if t is not None:
+                return ['list', v[1][:i] + [t] + v[1][i + 1:]]
+    if isinstance(v, list) and v[0] == 'dict':
+        for i, (k, x) in enumerate(v[1]):
+            t = hash_twin(x)
+            if t is not None:
+                return ['dict', [list(kv) for kv in v[1][:i]] + [[k, t]] + [list(kv) for kv in v[1][i + 1:]]]
+    return None
+
+
+def hash_twin_call(args, kwargs):
+    """the call with the first int-holding argument replaced by its hash twin: a distinct argument combination with (most likely) the same hash"""
+    for i, v in enumerate(args):
+        t = hash_twin(v)
+        if t is not None:
+            return args[:i] + [t] + args[i + 1:], kwargs, 'positional' if not isinstance(v, list) else 'nested'
+    for i, (k, v) in enumerate(kwargs):
+        t = hash_twin(v)
+        if t is not None:
+            return args, [list(kv) for kv in kwargs[:i]] + [[k, t]] + [list(kv) for kv in kwargs[i + 1:]], 'keyword' if not isinstance(v, list) else 'nested'
+    return None
 
 
 def first_arg(s, args, kwargs):
@@ -550,6 +585,18 @@ def run_transparent(spec):
             check(len(log) - n0 == 1, '%s for %s: the same call again evaluated f again (%s evaluations in all); f returns %s',
                   what, call_text(s, args, kwargs), len(log) - n0, exp)
             check(same(r, exp), '%s for %s: the same call again returned %s, the first result was %s', what, call_text(s, args, kwargs), r, exp)
+            tw = hash_twin_call(args, kwargs)
+            if tw is not None:
+                # a distinct argument combination whose hash equals that of the first one: its own evaluation, its own result
+                targs, tkwargs, where = tw
+                texp = apply_ret(ret, expected(s, targs, tkwargs)[0])
+                a, k = bvals(targs, tkwargs)
+                r = call('%s for %s' % (what, call_text(s, targs, tkwargs)), w, *a, **k)
+                check(len(log) - n0 == 2, '%s for %s, called after %s: a distinct argument combination, but f was evaluated %s times in all',
+                      what, call_text(s, targs, tkwargs), call_text(s, args, kwargs), len(log) - n0)
+                check(same(r, texp), '%s for %s (after %s) returned %s, f returns %s', what, call_text(s, targs, tkwargs), call_text(s, args, kwargs), r, texp)
+                cls.append('hash_colliding_arguments')
+                cls.append('hash_colliding:' + where)
         check_argspec(what, w, f)
         check_binding(what, w, f, s, args, kwargs, exp, callargs)
         nt = nt or len(stack) >= 2 or (nkw >= 1 and ndef >= 1)
@@ -978,7 +1025,7 @@ def _long_call(s, npos, nkw, kw_order):
 
 def large_cases():
     for N in LARGE:
-        for shape in ['positional', 'keyword', 'same_len_first_last', 'pos+kw', 'list']:
+        for shape in ['positional', 'keyword', 'same_len_first_last', 'pos+kw', 'list', 'minus1_minus2', 'mersenne', 'nested_minus1_minus2']:
             for order in ['same', 'reversed', 'rotated']:
                 for ret in [None, ['by_first']]:
                     yield dict(part='cache_keys', N=N, shape=shape, order=order, ret=ret)
@@ -1020,6 +1067,13 @@ def _large_key(shape, i):
         return [0, i, 0], []          # same length, same first and last element: only the middle tells the keys apart
     if shape == 'pos+kw':
         return [i % 8], [['x', i // 8]]
+    # hash-colliding families: consecutive keys differ only by -1 / -2, or by a multiple of 2**61 - 1
+    if shape == 'minus1_minus2':
+        return ([i // 4, -1 - i % 2], []) if i % 4 < 2 else ([i // 4], [['x', -1 - i % 2]])
+    if shape == 'mersenne':
+        return [i // 2 + (i % 2) * M61], []
+    if shape == 'nested_minus1_minus2':
+        return [['list', [-1 - i % 2, i // 2]]], []
     return [['list', [i // 16, i % 16]]], []
 
 
@@ -1052,7 +1106,8 @@ def run_large(spec):
             r = call('cache(f) for %s (key %i of %i, second round)' % (call_text(s, args, kwargs), i, N), w, *a, **k)
             check(len(log) == N, 'cache(f) holding %s keys: key number %s was passed again and f was evaluated again (%s evaluations)', N, i, len(log))
             check(same(r, first[i]), 'cache(f) holding %s keys: key number %s returned %s, its first result was %s', N, i, r, first[i])
-        return dict(nt=True, cls=['cache_keys', 'N=%i' % N, 'shape=' + spec['shape'], 'order=' + spec['order']] + (['falsy_results'] if ret else []))
+        return dict(nt=True, cls=['cache_keys', 'N=%i' % N, 'shape=' + spec['shape'], 'order=' + spec['order']] + (['falsy_results'] if ret else [])
+                    + (['hash_colliding_arguments'] if 'minus' in spec['shape'] or spec['shape'] == 'mersenne' else []))
     s, stack = spec['sig'], spec['stack']
     args, kwargs = _long_call(s, spec['npos'], spec['nkw'], spec['kw_order'])
     for nm in stack:
@@ -1151,6 +1206,16 @@ def run_grid(spec):
         check(same(r, exp), '%s for %s returned %s, f itself returns %s', what, txt, r, exp)
         if nm == 'cache':
             check(len(log) - n0 == 1, '%s for %s (fresh cache) evaluated f %s times', what, txt, len(log) - n0)
+            tw = hash_twin_call(args, kwargs)
+            if tw is not None:
+                targs, tkwargs, where = tw
+                texp = expected(s, targs, tkwargs)[0]
+                a, k = bvals(targs, tkwargs)
+                r = call('%s for %s' % (what, call_text(s, targs, tkwargs)), w, *a, **k)
+                check(len(log) - n0 == 2, '%s for %s, called after %s: a distinct argument combination, but f was evaluated %s times in all',
+                      what, call_text(s, targs, tkwargs), txt, len(log) - n0)
+                check(same(r, texp), '%s for %s (after %s) returned %s, f returns %s', what, call_text(s, targs, tkwargs), txt, r, texp)
+                cls.append('hash_colliding_arguments')
             for v in FALSY:
                 logc = []
                 wc = wrap(['cache'], make_fn(s, logc, ret=['const', v]))
@@ -1182,12 +1247,17 @@ def run_grid(spec):
             cls.append('falsy_default_relied_on')
     if any(k == 'function' for k, _ in kwargs):
         cls.append('keyword_named_function')
+    if len(args) == n + 1 and is_container_spec(args[-1]):
+        cls.append('single_list_in_varargs')
     return dict(nt=nkw >= 1 and ndef >= 1, cls=cls)
 
 
 # ----------------------------------------------------------------------------- sub-check: cache call histories
 
-POOL = [None, 0, 1, 'a', ['list', [1, 2]], ['dict', [['k', 1]]]]   # None first: hypothesis favours / shrinks towards small indices
+# None first: hypothesis favours / shrinks towards small indices. From index 6 on: hash twins of other members
+# (hash(-1) == hash(-2), hash(0) == hash(2**61 - 1), hash(1) == hash(2**61), equal hashes of the tuples the lists are normalised to)
+POOL = [None, 0, 1, 'a', ['list', [1, 2]], ['dict', [['k', 1]]], -1, -2, M61, M61 + 1, ['list', [-1, 3]], ['list', [-2, 3]]]
+TWIN_IDX = {6: 7, 7: 6, 1: 8, 8: 1, 2: 9, 9: 2, 10: 11, 11: 10}
 CACHED = [
     dict(sig=dict(n=2, d=1, va=False, vk=False), stack=['cache']),
     # same signature, separate wrapper: caches must not be shared. Returns None / 0 / False / '' / [] / {} depending on its first argument
@@ -1214,8 +1284,10 @@ class CacheModel(object):
         'recall': dict(j=st.integers(0, 40), rev=st.booleans()),
         'twin': dict(j=st.integers(0, 40)),
         'same_on_other': dict(j=st.integers(0, 40)),
+        'collide': dict(j=st.integers(0, 40), which=st.integers(0, 5)),
     }
-    PRE = {'recall': lambda m: len(m.history) > 0, 'twin': lambda m: len(m.history) > 0, 'same_on_other': lambda m: len(m.history) > 0}
+    PRE = {'recall': lambda m: len(m.history) > 0, 'twin': lambda m: len(m.history) > 0, 'same_on_other': lambda m: len(m.history) > 0,
+           'collide': lambda m: len(m.history) > 0}
 
     def __init__(self):
         self.logs = [[] for _ in CACHED]
@@ -1267,10 +1339,17 @@ class CacheModel(object):
                 self.flags.add('hit_with_keywords_reordered')
         if any(h[0] != fn and h[3] == key for h in self.history):
             self.flags.add('same_arguments_on_two_functions')
+        canon = lambda idx: min(idx, TWIN_IDX.get(idx, idx))
+        ckey = (tuple(canon(i) for i in args_i), tuple(sorted((k, canon(i)) for k, i in kwargs_i)))
+        for h in self.history:
+            if h[0] == fn and h[3] != key and h[5] == ckey:
+                self.flags.add('hash_colliding_arguments')
+                self.flags.add('hash_colliding_after_%s' % ('None_result' if self.first[fn][h[3]] is None else 'report'
+                                                             if ret_label(self.first[fn][h[3]]) == 'report' else 'falsy_result'))
         bound = _tok_bound(echo)
         if any(h[0] == fn and h[3] != key and h[4] == bound for h in self.history):
             self.flags.add('same_binding_other_split')
-        self.history.append((fn, list(args_i), [list(kv) for kv in kwargs_i], key, bound))
+        self.history.append((fn, list(args_i), [list(kv) for kv in kwargs_i], key, bound, ckey))
 
     # --- operations
     def op_call(self, fn, vals, k, omit, xkw, rev):
@@ -1306,6 +1385,23 @@ class CacheModel(object):
             nm = NAMES[len(args_i)]
             args_i.append([i for k, i in kwargs_i if k == nm][0])
             kwargs_i = [kv for kv in kwargs_i if kv[0] != nm]
+        self._do(fn, args_i, kwargs_i)
+
+    def op_collide(self, j, which):
+        """an earlier call with one argument replaced by its hash twin (-1 <-> -2, 0 <-> 2**61-1, 1 <-> 2**61, [-1,3] <-> [-2,3]): a distinct key"""
+        fn, args_i, kwargs_i = self.history[j % len(self.history)][:3]
+        args_i, kwargs_i = list(args_i), [list(kv) for kv in kwargs_i]
+        slots = [('a', i) for i, v in enumerate(args_i) if v in TWIN_IDX] + [('k', i) for i, (k, v) in enumerate(kwargs_i) if v in TWIN_IDX]
+        if slots:
+            kind, i = slots[which % len(slots)]
+            if kind == 'a':
+                args_i[i] = TWIN_IDX[args_i[i]]
+            else:
+                kwargs_i[i][1] = TWIN_IDX[kwargs_i[i][1]]
+        elif args_i:
+            args_i[which % len(args_i)] = 6 + which % 2      # plant a -1 / -2 for later collisions
+        elif kwargs_i:
+            kwargs_i[which % len(kwargs_i)][1] = 6 + which % 2
         self._do(fn, args_i, kwargs_i)
 
     def op_same_on_other(self, j):
@@ -1346,6 +1442,7 @@ SUBS = [
                                  'has:pd2np': 0.12, 'has:kwargs_support': 0.12, 'has:try_back': 0.15, 'has:try_value': 0.15,
                                  'f_returns_None': 0.08, 'f_returns_falsy': 0.08, 'cached_result_is_None': 0.03, 'cached_result_is_falsy': 0.03,
                                  'names_prefixes_of_one_another': 0.1, 'two_step_spelling': 0.1, 'keyword_named_like_wrapper_parameter': 0.04, 'keyword_named_function': 0.01,
+                                 'hash_colliding_arguments': 0.15,
                                  'two_extra_keywords_in_order': 0.06, 'falsy_default_relied_on': 0.025}),
     Sub('rewrap', lambda tier: s_rewrap(include_known_defect=REWRAP_DEEP), run_rewrap, quick=1500, thorough=20000,
         rule='stack of 1-3 decorators of distinct classes built on f, then wrapped again with a decorator of a class already in the stack (possibly another '
@@ -1368,13 +1465,14 @@ SUBS = [
                                  'undeclared_is_substring_or_superstring_of_declared': 0.03, 'undeclared_named_like_wrapper_parameter': 0.04}),
     MachineSub('cache_history', CacheModel, quick=(400, 30), thorough=(3000, 40),
                rule='histories of <= 30/40 calls on four cached functions (two with the same signature, one wrapped twice, one all-defaults with **vk); arguments '
-                    'from a 6-element pool (0, 1, "a", None, [1,2], {"k":1}) in random positional/keyword spellings, re-issued earlier calls (keywords reordered, '
-                    'fresh equal containers), the same binding through another split, the same call on the twin function; model: per function a dict keyed by '
+                    'from a 12-element pool (None, 0, 1, "a", [1,2], {"k":1} and the hash twins -1, -2, 2**61-1, 2**61, [-1,3], [-2,3]) in random positional/keyword spellings, re-issued earlier calls (keywords reordered, '
+                    'fresh equal containers), the same binding through another split, the same call on the twin function, an earlier call with one argument replaced by its hash twin (a distinct key); model: per function a dict keyed by '
                     '(positional values, sorted keyword items) as passed; every call must evaluate f once if the key is new and not at all otherwise and return '
                     'the first result. Three of the four functions return None / 0 / False / '' / [] / {} depending on their first argument (else the full report with its evaluation number); evaluations are counted through a list closed over by f, never through the result. non-trivial = a key repeated after an intervening call with another key on that function',
                floor=0.3, class_floors={'hit_after_other_key': 0.3, 'hit_with_keywords_reordered': 0.05, 'hit_with_container_argument': 0.1,
                                         'same_arguments_on_two_functions': 0.1, 'same_binding_other_split': 0.1,
-                                        'cached_result_is_None': 0.15, 'cached_result_is_falsy': 0.3, 'cached_result_is_report': 0.3}),
+                                        'cached_result_is_None': 0.15, 'cached_result_is_falsy': 0.3, 'cached_result_is_report': 0.3,
+                                        'hash_colliding_arguments': 0.3}),
     Sub('same_code', lambda tier: s_same_code(), run_same_code, quick=800, thorough=15000,
         rule='2-3 functions produced by ONE factory (def or lambda: they share one code object) with different default values and different closures, '
              'bare or under 1-2 decorators; 3-8 operations in random interleaved order: getargspec, getcallargs + call_with_callargs, or a call, each judged '
@@ -1384,7 +1482,7 @@ SUBS = [
                                  'falsy_default': 0.3, 'same_function_bound_or_called_twice': 0.5}),
     EnumSub('large', enum_large, run_large, chunks=8,
         rule='size thresholds (enumerated completely in both tiers): (a) one cached function given N in {64,65,100,128,129,200,256,300} distinct argument combinations (positional ints, keyword, '
-             '(0,i,0) = same length/first/last, positional+keyword, lists), then all of them again in the same / reversed / rotated order: N evaluations '
+             '(0,i,0) = same length/first/last, positional+keyword, lists, and hash-colliding families: ..,-1 / ..,-2 positional and keyword, i / i+2**61-1, [-1,i] / [-2,i]), then all of them again in the same / reversed / rotated order: N evaluations '
              'in all, every repeat returns its first result (half the functions return None / falsy values); (b) calls with N extra positionals and/or '
              'N extra keywords through 1-2 decorators: result, getargspec, getcallargs / call_with_callargs. every case is non-trivial'),
     EnumSub('binding_grid', enum_grid, run_grid, chunks=16,
